@@ -16,6 +16,7 @@
 //	                  the shrinker of the checks).
 //	-mode options     every options value of a finite grid x 8 queries on every sub-graph of a 6-triple universe; one
 //	                  digest per sub-graph.
+//	-mode overflow    replays finding C09-page-overflow (MaxElements = Offset = 2^32).
 //	-mode shared      concurrent callers sharing one LookupOptions value with LatestAnchor (defect F7).
 //
 // Canonicalisation: graph names, nodes, predicate ids, literals are numbers (positions in the pools); a predicate is
@@ -959,6 +960,10 @@ func (sc *scenario) randomLopts(r *rand.Rand) lopts {
 			lo.Offset = r.Intn(2)
 		}
 	}
+	if r.Intn(30) == 0 { // huge values: MaxElements * Offset near and beyond the range of int
+		lo.Max = []int{1 << 31, 1 << 32, 1 << 62, 1<<63 - 1, 3}[r.Intn(5)]
+		lo.Offset = []int{1 << 32, 1 << 40, 4, 2, 1<<63 - 1}[r.Intn(5)]
+	}
 	nb := len(sc.bounds)
 	if nb > 0 && r.Intn(3) != 0 {
 		if r.Intn(3) != 0 { // a window that is usually non-empty: lower from the lower half, upper from the upper half
@@ -1295,6 +1300,20 @@ func runShared(workers, calls int) {
 		"options_restored": restored, "failures_per_method": perKind})
 }
 
+// ---------------------------------------------------------------- mode overflow (finding C09-page-overflow)
+func runOverflow() {
+	sc := exhaustiveScenario()
+	w := newWorld(sc)
+	w.apply(opx{kind: "new", n: 0})
+	w.apply(opx{kind: "add", h: 0, is: []int{0}})
+	q := query{10, 0, 0}
+	un := sc.runQuery(w.objs[0], q, &storage.LookupOptions{})
+	page := sc.runQuery(w.objs[0], q, &storage.LookupOptions{MaxElements: 1 << 32, Offset: 1 << 32})
+	control := sc.runQuery(w.objs[0], q, &storage.LookupOptions{MaxElements: 3, Offset: 1 << 40})
+	emit(map[string]interface{}{"kind": "overflow", "max": 1 << 32, "offset": 1 << 32, "unpaged_elements": un[1],
+		"page_elements": page[1], "control_elements": control[1]})
+}
+
 // ---------------------------------------------------------------- mode detail
 type detailIn struct {
 	Qs  []query `json:"qs"`
@@ -1561,6 +1580,8 @@ func main() {
 		runReplay(*file, *c02, *c09)
 	case "options":
 		runOptions()
+	case "overflow":
+		runOverflow()
 	default:
 		must(fmt.Errorf("unknown mode %q", *mode))
 	}
